@@ -345,6 +345,8 @@ def monitor_c02(case, line):
                     return 'op %d: the consumer left node %d although committed record %s was still unread in it' % (idx, fifo[0][0], (fifo[0][1], fifo[0][2]))
                 if prevc != allocs[nf - 1] or newc != allocs[nf]: return 'op %d: switch reports capacities (%d -> %d), nodes are %s' % (idx, prevc, newc, allocs)
             if ccap != allocs[nf] if nf < len(allocs) else True: return 'op %d: capacity() = %d but the consumer is on node %d of %s' % (idx, ccap, nf, allocs)
+            if not kind and not al and fifo:
+                return 'op %d: read returned nothing (and did not switch) although committed record %s of node %d is outstanding' % (idx, (fifo[0][1], fifo[0][2]), fifo[0][0])
             if kind:
                 if not fifo: return 'op %d: read returned a record although no committed record is outstanding' % idx
                 node, woff, wn = fifo.pop(0)
